@@ -90,6 +90,8 @@ class Coordinator(object):
         self._rejoin_needed = True
         # are we shutting down?
         self._stopping = False
+        # has a subclass begun its part of stop() (no rejoin may begin any more)?
+        self._stop_requested = False
         # delayedcall for a pending rejoin
         self._rejoin_wait_dc = None
         # deferred for a rejoin in progress
@@ -294,6 +296,7 @@ class Coordinator(object):
             d.cancel()
 
         self._state = "[stopped]"
+        self._stop_requested = False
         self.protocol = None
         self.member_id = ""
         self.generation_id = None
@@ -434,6 +437,10 @@ class Coordinator(object):
             log.debug("join_and_sync: rejoin not needed")
             return
 
+        if self._stop_requested:
+            log.debug("join_and_sync: stop in progress")
+            return
+
         # prevent multiple concurrent request situations
         if self._rejoin_d:
             # XXX: This should throw, not silently ignore.
@@ -465,6 +472,8 @@ class Coordinator(object):
 
         self._state = "[joining]"
         yield self.on_join_prepare()
+        if self._stopping or self._stop_requested:
+            return
         join_response = yield self.send_join_group_request()
         if not join_response or self._stopping:
             # join failed, we'll be called again after a small delay
@@ -866,5 +875,9 @@ class ConsumerGroup(Coordinator):
         This waits for any ongoing processing to complete and commits offsets.
         It may take some time.
         """
+        if self._start_d is not None and not self._stopping:
+            # The consumers are about to commit and close: from here on a failed
+            # heartbeat (or a rejoin already under way) must not join the group again.
+            self._stop_requested = True
         yield self.shutdown_consumers()
         yield super(ConsumerGroup, self).stop(errback_result=errback_result)
